@@ -294,7 +294,7 @@ def generate():
     note = "" if why is None else "  (* shape not recognised: %s *)" % why
     out.append("(* the expression compiler: compiler.py _REDUCE_SCAN_OPS, numpy_backend._ir_to_source reduce / scan tables *)")
     out.append("Definition redscan_ops : list string := %s.%s" % (astlib.coq_list([_s(x) for x in sorted(ops)]), note))
-    for name, kind in (("compiled_reduce", "reduce"), ("compiled_scan", "scan")):
+    for name, kind in (("compiled_reduce_tbl", "reduce"), ("compiled_scan_tbl", "scan")):
         items = ["(%s, %s)" % (_s(k), _s(a)) for k, a in sorted(tables[kind], key=lambda e: e[0])]
         out.append("Definition %s : list (string * string) := %s." % (name, astlib.coq_list(items)))
         out.append("Definition %s_template : string := %s." % (name, _s(templates[kind])))
@@ -357,6 +357,11 @@ A2 = ["+", "-", "*", "%", "&", "|", "=", "<", ">", "L+", "L-", "L*", "L%", "L&",
       "Lnc", "Ldec", "proj", "nproj", "named", "py"]
 S2 = [",", "L,", "Lsnd", "Lfst", "Lnest"]
 A1 = ["-", "L-", "Linc", "Ldbl", "Lcap", "Lhalf", "proj", "named", "py", "pycap", "Lnewton"]
+# While / Scan-While tests answering truth values other than 0/1: (test, verb, starting operands)
+TRUTH_CASES = [("size", "Ldrop", [L(1, 2, 3), S("abc"), L(7), L(), S(""), L(L(1, 2), L(3))]),
+               ("self", "Ldrop", [L(1, 2, 3), S("abc"), L(7), L(0), L(), S("")]),
+               ("m4", "Linc", [0, 1, 4, 2.5]), ("rem10", "Linc2", [0, 4, 10]), ("realrem", "Linc", [0, 2, 4]),
+               ("self", "Linc", [-3, 0]), ("self", "L-", [0.0, 0])]
 S1 = ["#", "L#", ",", "L,", "|", "*", "Ldup", "Lid", "Lone", "Lcons", "Lflat"]
 GROW1 = {"Ldup", "Lcons", "Ldbl", "named", ",", "L,"}
 MONADIC_USE = ["each", "eachindex", "over", "scan", "eachpair", "converge", "scanconv"]
@@ -422,6 +427,10 @@ def universe(tier, rng):
                         lefts = lefts + [S("xy"), ["c", "z"], ["d", [1, 2]]]
                     for l in lefts:
                         add({"adv": adv, "verb": v, "a": a, "left": l}, core=(a in (L(3, 1, 2), S("abc")) and l in (7, 0, 10, L(10, 20, 30))))
+    for p, v, starts in TRUTH_CASES:
+        for a in starts:
+            for adv in ("while", "scanwhile"):
+                add({"adv": adv, "verb": v, "a": a, "left": p}, core=True)
     # chains: every first adverb of monadic use x every adverb of monadic verbs (+ one 3-chain)
     cverbs1 = ["-", "#", "Lid", "Lone", "Lcap", "|", "py"]
     cverbs2 = ["+", ",", "&", "Lsnd", "Lnc", "L+", "py", "-"]
@@ -518,7 +527,7 @@ def to_sx(v):
 MODEL_FUEL = 120
 
 
-def model_request(c):
+def model_request(c, route=0):
     adv = c["adv"]
     if "left" not in c:
         left = ["none"]
@@ -526,7 +535,7 @@ def model_request(c):
         left = ["pred", c["left"]]
     else:
         left = to_sx(c["left"])
-    return sx(["run", adv, c["verb"], c.get("chain", []), left, to_sx(c["a"]), MODEL_FUEL])
+    return sx(["run", adv, c["verb"], c.get("chain", []), left, to_sx(c["a"]), MODEL_FUEL, route])
 
 
 def norm(c):
@@ -633,6 +642,39 @@ def classify(chk, c, o, m):
     return prop, corr
 
 
+def judge(t, e):
+    """property oracle on two normalised results: None = agree (or both fail), else what differs"""
+    terr, eerr = t[0] == "e", e[0] == "e"
+    thang, ehang = t[0] == "hang", e[0] == "hang"
+    if thang or ehang:
+        return None if thang == ehang else "one of text / expansion exceeded the evaluation budget (%s / %s)" % (t[0], e[0])
+    if terr and eerr:
+        return None
+    if terr != eerr:
+        return "text %s but expansion %s" % ("raises " + t[1] if terr else "gives a value", "raises " + e[1] if eerr else "gives a value")
+    return None if t == e else "text and expansion give different values"
+
+
+def model_vs(m, t):
+    """model equality on a model answer and a normalised implementation result: None = agree / not comparable"""
+    if m[0] == "bad":
+        return "model rejected the request: %r" % (m,)
+    if m[0] == "err" and m[1] == 99:
+        return None
+    if m[0] == "fuel":
+        return None if t[0] == "hang" else "model runs out of fuel, implementation %s" % t[0]
+    if m[0] == "err":
+        return None if t[0] == "e" else "model raises (%s), implementation does not" % m[1]
+    if t[0] in ("e", "hang"):
+        return "model gives a value, implementation %s" % t[0]
+    return None if norm(m[1]) == t else "model and implementation give different values"
+
+
+def while_truth_known(c, o):
+    """known finding C02-while-list-truth: a While / Scan-While test answered a list or an empty dictionary"""
+    return c["adv"] in ("while", "scanwhile") and any(a[0] == "l" or a == ["d"] for a in o.get("pans", []))
+
+
 def replay_body(c, o, m=None):
     return {"case": c, "text": o.get("text"), "operand": o.get("a"), "text_result": o.get("t"), "expansion_result": o.get("e"),
             "python_verb_calls_text": o.get("tlog"), "expansion_applications": o.get("eapps"), "model": m}
@@ -653,6 +695,9 @@ def run(tier, replay=None):
     chk.counters["universe_size"] = total
     outs = run_children(cases, nproc=4)
     models = chk.run_model([model_request(c) for c in cases])
+    # the compiled route: single Over / Scan-Over of an operator, operand in a variable / function argument
+    routed = [c for c in cases if not c.get("chain") and c["adv"] in ("over", "scan") and c["verb"] in OPS]
+    routed_models = dict(zip([c["id"] for c in routed], chk.run_model([model_request(c, 1) for c in routed])))
     props, corrs = [], []
     seen = set()
     for c, m in zip(cases, models):
@@ -665,6 +710,25 @@ def run(tier, replay=None):
         if nontrivial and o["text"] not in seen:
             seen.add(o["text"])
             chk.count("distinct_nontrivial")
+        # the operand in a variable / as a function argument: judged by the same expansion
+        if "tvn" in o and o["en"][0] != "outside" and not o.get("unrep"):
+            for key, how in (("tv", "with the operand in a variable"), ("tf", "with the operand as a function argument")):
+                chk.count("variable_forms_judged")
+                pv = judge(o[key + "n"], o["en"])
+                if pv and not (c["verb"] in ("%", "L%") and all_real(o[key + "n"]) == all_real(o["en"])):
+                    if not prop:
+                        prop = "%s: %s (%s)" % (how, pv, o[key + "_text"])
+                        o = dict(o, text=o[key + "_text"], t=o[key])
+                m1 = routed_models.get(c["id"])
+                if m1 is not None:
+                    chk.count("compiled_route_model_compared")
+                    cv = model_vs(m1, o[key + "n"])
+                    if cv and not corr:
+                        corr = "compiled route, %s: %s" % (how, cv)
+        if prop and while_truth_known(c, o):
+            chk.finding("C02-while-list-truth", prop, replay_body(c, o, m))
+            chk.count("known_finding_cases")
+            prop = None
         if prop:
             props.append((prop, c, o, m))
         if corr:
